@@ -99,7 +99,10 @@ class Rec:
         """key of the vector the stored costs were computed from (-1: none of the vectors seen)"""
         if ind.costs is None or len(ind.costs) == 0:
             return 0
-        want = [float(c) for c in ind.costs]          # the WHOLE stored cost list must be what the objective returned (no extra entries)
+        try:
+            want = [float(c) for c in ind.costs]      # the WHOLE stored cost list must be what the objective returned (no extra entries)
+        except (TypeError, ValueError):
+            return -1                                 # an entry that is not a number (None, a nested list): these are not the objective's costs
         if [n / 1e9 + self.cost_offset for n in fp_costs(ind.vector, self.m)] == want:
             return self.vkey(ind.vector)
         for t, k in list(self.vkeys.items()):
